@@ -2,6 +2,7 @@
 # build.sh — build the Coq development (full .vo), extract the model, compile the driver.
 # Usage: ./build.sh [--force]   (run under flock by ./check and by setup_cmd)
 set -e
+set -o pipefail
 cd "$(dirname "$0")"
 ROOT=$(pwd)
 mkdir -p build/ocaml
